@@ -538,6 +538,9 @@ func freshValue(m *Module, v ssa.Value, d int) bool {
 			if g.Name() == "DupStringSlice" || g.Name() == "DupStringMap" {
 				return true
 			}
+			if m.mapCopyFn(g) {
+				return true
+			}
 		}
 		return false
 	case *ssa.Phi:
